@@ -72,9 +72,21 @@ pub async fn goto(target: u64) {
     settle().await;
 }
 
+/// Runs every other task until none of them is runnable (the run queue of the current-thread
+/// scheduler is empty twice in a row after a yield): the server is quiescent at this virtual instant.
 pub async fn settle() {
-    for _ in 0..SETTLE_YIELDS {
+    let metrics = tokio::runtime::Handle::current().metrics();
+    let mut calm = 0;
+    for _ in 0..2_000_000 {
         tokio::task::yield_now().await;
+        if metrics.worker_local_queue_depth(0) == 0 && metrics.injection_queue_depth() == 0 {
+            calm += 1;
+            if calm >= 3 {
+                return;
+            }
+        } else {
+            calm = 0;
+        }
     }
 }
 
@@ -413,6 +425,38 @@ pub async fn step(env: &mut Env, line: &str) -> Answer {
                 Err(e) => e,
             })
         }
+        // wtopics|wsubs|wtsubs <arg> <size>: the whole walk, pages separated by " | "
+        "wtopics" | "wsubs" | "wtsubs" => {
+            let arg = s!(1);
+            let page_size: i32 = toks[2].parse().unwrap();
+            let mut token = String::new();
+            let mut pages = Vec::new();
+            for _ in 0..100_000 {
+                let (items, next): (Vec<String>, String) = match toks[0] {
+                    "wtopics" => match guarded(env.publisher.list_topics(ListTopicsRequest {
+                        project: arg.clone(), page_size, page_token: token.clone() })).await {
+                        Ok(r) => { let r = r.into_inner(); (r.topics.iter().map(|t| hex(t.name.as_bytes())).collect(), r.next_page_token) }
+                        Err(e) => { pages.push(e); break; }
+                    },
+                    "wsubs" => match guarded(env.subscriber.list_subscriptions(ListSubscriptionsRequest {
+                        project: arg.clone(), page_size, page_token: token.clone() })).await {
+                        Ok(r) => { let r = r.into_inner(); (r.subscriptions.iter().map(sub_out).collect(), r.next_page_token) }
+                        Err(e) => { pages.push(e); break; }
+                    },
+                    _ => match guarded(env.publisher.list_topic_subscriptions(ListTopicSubscriptionsRequest {
+                        topic: arg.clone(), page_size, page_token: token.clone() })).await {
+                        Ok(r) => { let r = r.into_inner(); (r.subscriptions.iter().map(|t| hex(t.as_bytes())).collect(), r.next_page_token) }
+                        Err(e) => { pages.push(e); break; }
+                    },
+                };
+                pages.push(format!("ok {}", join(&items, ",")));
+                if next.is_empty() {
+                    break;
+                }
+                token = next;
+            }
+            ans(pages.join(" | "))
+        }
         "csub" => {
             let name = s!(1);
             let topic = s!(2);
@@ -609,6 +653,7 @@ pub async fn step(env: &mut Env, line: &str) -> Answer {
                 Some(state) => {
                     if let Some(rx) = state.rx.as_mut() {
                         let mut idle = 0;
+                        settle().await;
                         while idle < SETTLE_YIELDS && !state.ended {
                             let polled = futures::poll!(std::pin::pin!(tokio_stream::StreamExt::next(rx)));
                             match polled {
